@@ -81,7 +81,8 @@ def inject(rng, case, opts, kinds=None):
     s = case['sys']
     nb = len(case['blocks'])
     kind = rng.choice(kinds or ['off', 'off', 'off', 'off', 'adc_on_adc_raster', 'neg', 'dead_rf', 'dead_adc', 'alt', 'stored_cut',
-                                'stored_long', 'stored_off', 'dur_off'])
+                                'stored_long', 'stored_off', 'dur_off', 'dur_off', 'other_raster', 'other_raster',
+                                'dur_other_raster', 'twin_off'])
     order = list(range(nb))
     rng.shuffle(order)
     for bi in order:
@@ -99,6 +100,39 @@ def inject(rng, case, opts, kinds=None):
                 ev['set'][attr] = float(F(old) + frac * F(ras))
                 exp = [(bi + 1, tg.slot_of(ev), field, 'RASTER')] if frac >= Fraction(1, 10 ** 5) else []
                 return ('off %s.%s by %s raster' % (tg.slot_of(ev), field, float(frac)), exp)
+        elif kind == 'other_raster':
+            # the field lies on ANOTHER raster of the system (not a multiple of its own): a raster mix-up must show
+            for ev in evs:
+                fs = [f for f in raster_fields(ev, s) if f[0] not in ev['set']]
+                rng.shuffle(fs)
+                for attr, field, ras in fs:
+                    others = [o for o in ('block', 'rf', 'grad', 'adc')
+                              if Fraction(1, 10 ** 4) < (F(s[o]) / F(ras)) % 1 < 1 - Fraction(1, 10 ** 4)]
+                    if not others:
+                        continue
+                    o = rng.choice(others)
+                    ev['set'][attr] = float(F(cur_value(ev, attr, opts)) + F(s[o]))
+                    return ('%s.%s moved by one %s raster' % (tg.slot_of(ev), field, o), [(bi + 1, tg.slot_of(ev), field, 'RASTER')])
+        elif kind == 'dur_other_raster':
+            dl = [e for e in blk['events'] if e['k'] == 'delay' and not e['set']]
+            others = [o for o in ('rf', 'grad', 'adc')
+                      if Fraction(1, 10 ** 4) < (F(s[o]) / F(s['block'])) % 1 < 1 - Fraction(1, 10 ** 4)]
+            if not dl or not others:
+                continue
+            o = rng.choice(others)
+            dl[0]['set']['delay'] = float(F(dl[0]['delay']) + 4 * F(s['block']) + F(s[o]))
+            return ('block duration on the %s raster, not the block raster' % o, [(bi + 1, 'block', 'duration', 'RASTER')])
+        elif kind == 'twin_off':
+            # a later block made of exactly the same events as an earlier one, padded to another (off-raster) duration
+            dl = [e for e in blk['events'] if e['k'] == 'delay']
+            if not dl or any(e['set'] or e['alt'] for e in blk['events']) or blk.get('stored_delta') or blk.get('stored_abs'):
+                continue
+            twin = copy.deepcopy(blk)
+            d = [e for e in twin['events'] if e['k'] == 'delay'][0]
+            frac = rng.choice(FRACS[:4])
+            d['set']['delay'] = float(F(d['delay']) + (frac + rng.choice([1, 7])) * F(s['block']))
+            case['blocks'].append(twin)
+            return ('twin of block %d with an off-raster duration' % (bi + 1), [(len(case['blocks']), 'block', 'duration', 'RASTER')])
         elif kind == 'adc_on_adc_raster':
             if F(s['adc']) * 2 > F(s['rf']):
                 return None
@@ -183,17 +217,35 @@ def inject(rng, case, opts, kinds=None):
 
 
 def variant():
-    """True when the source under test applies the block-raster test to the stored duration (repaired source)"""
+    """True when the source under test applies the block-raster test to the stored duration (repaired source).
+    Taken from the translator when it succeeded, else read directly from the source text (the oracle must not fall back
+    to the wrong reading when the translator fails closed on an unrelated edit)."""
     import translate
-    return bool(translate.CONSTS.get('timing_raster_on_stored', False))
+    if 'timing_raster_on_stored' in translate.CONSTS:
+        return bool(translate.CONSTS['timing_raster_on_stored'])
+    import re
+    try:
+        src = open(os.path.join(translate.PKG, 'check_timing.py')).read()
+    except OSError:
+        return True
+    m = re.search(r"div_check\(\s*([^,]+),[^)]*?event='block'", src, flags=re.S)
+    return bool(m) and 'block_durations' in m.group(1)
 
 
 def gen_case(rng, stream):
     s = tg.gen_system(rng)
     opts = tg.make_opts(s)
     nb = rng.randint(1, 8)
-    case = {'stream': stream, 'sys': s, 'alt': None, 'blocks': [tg.gen_block(rng, s, opts) for _ in range(nb)], 'faults': [],
-            'expected': []}
+    case = {'stream': stream, 'sys': s, 'alt': None,
+            'blocks': [tg.gen_block(rng, s, opts, p_long=0.07, p_empty=0.05) for _ in range(nb)], 'faults': [], 'expected': []}
+    # repeated blocks: same events, another (valid) padding — a later block must be judged on its own duration
+    for _ in range(rng.choice([0, 0, 1, 2])):
+        src = rng.choice(case['blocks'])
+        twin = copy.deepcopy(src)
+        dl = [e for e in twin['events'] if e['k'] == 'delay']
+        if dl:
+            dl[0]['delay'] = float(F(dl[0]['delay']) + rng.choice([0, 1, 5]) * F(s['block']))
+        case['blocks'].append(twin)
     nf = {'valid': 0, 'fault1': 1, 'faultN': rng.randint(2, 4), 'alt': 1}[stream]
     tries = 0
     while len(case['faults']) < nf and tries < 12:
